@@ -320,6 +320,7 @@ def check(prop, tier):
         stats["events"] += j["events"]
         stats["thread_switches"] += j["thread_switches"]
         stats["first_uses"] += j["first_uses"]
+        stats["repeated_calls"] = stats.get("repeated_calls", 0) + j.get("repeated_calls", 0)
         pv = stats["per_variant"].setdefault(variant, dict(runs=0, ops=0))
         pv["runs"] += 1
         for k, n in j["ops"].items():
@@ -629,6 +630,8 @@ def finish(prop, tier, base, stats, samples, miri_stats, cross_stats, t_start, n
         per_variant=stats["per_variant"],
         feature_sets_that_did_not_build=sorted(UNBUILDABLE),
         runs_per_hour=int(stats["runs"] / wall * 3600) if wall > 0 else 0,
+        seeds="run i of a variant uses seed base+i, base = %d; %s" % (base, ", ".join("%s: %d..%d" % (v, base, base + d["runs"] - 1) for v, d in sorted(stats["per_variant"].items()))),
+        repeated_calls_compared=stats.get("repeated_calls", 0),
         simulated_time="not applicable: the library reads no clock; progress is counted in API calls",
         engine_M=miri_stats,
         cross_build=cross_stats,
